@@ -8,8 +8,8 @@ from .env import Fxp, to_float, is_exact_float, flat, exact, codes_of, tok_exact
 
 INT_DTYPES = ('int8', 'int16', 'int32', 'int64', 'uint8', 'uint16', 'uint32', 'uint64')
 FLOAT_DTYPES = ('float16', 'float32', 'float64', 'longdouble')
-SCALAR_CARRIERS = ('pyint', 'pyfloat', 'decstr', 'arr0d') + tuple('np.' + d for d in INT_DTYPES + FLOAT_DTYPES)
-ARRAY_CARRIERS = ('list', 'listf', 'tuple', 'nested', 'strlist') + tuple('arr.' + d for d in INT_DTYPES + FLOAT_DTYPES) + tuple('arr2.' + d for d in ('int64', 'float64', 'float32', 'int16'))
+SCALAR_CARRIERS = ('pyint', 'pyfloat', 'decstr', 'arr0d', 'fxp') + tuple('np.' + d for d in INT_DTYPES + FLOAT_DTYPES)
+ARRAY_CARRIERS = ('list', 'listf', 'tuple', 'nested', 'strlist', 'arr.fxp', 'arr2.fxp') + tuple('arr.' + d for d in INT_DTYPES + FLOAT_DTYPES) + tuple('arr2.' + d for d in ('int64', 'float64', 'float32', 'int16'))
 ROUTES = ('ctor', 'call', 'setval', 'setitem')
 
 
@@ -42,8 +42,22 @@ def dec_string(q):
     return ('-' if q < 0 else '') + body
 
 
+def fxp_source_format(vals):
+    """an exact signed source format for an Fxp-object carrier (None when more than 60 bits would be needed):
+    n_frac = 0 for integers (such a source is integer-born: vdtype=int), else the fraction bits the finest value needs."""
+    fs = max((v.denominator.bit_length() - 1 for v in vals), default=0)
+    if any(v.denominator & (v.denominator - 1) for v in vals):
+        return None
+    w = max((abs(int(v * 2 ** fs)).bit_length() for v in vals), default=0) + 2
+    if w > 60 or fs > 58:
+        return None
+    return (True, max(w, fs + 1), fs)
+
+
 def ok_for(carrier, vals):
     kind, _, dt = carrier.partition('.')
+    if carrier == 'fxp' or dt == 'fxp':
+        return fxp_source_format(vals) is not None and all(v.denominator == 1 or is_exact_float(v) for v in vals)
     if kind in ('np', 'arr', 'arr2'):
         if dt in INT_DTYPES:
             return all(_fits_int_dtype(v, dt) for v in vals)
@@ -79,6 +93,19 @@ def build(carrier, vals):
         return np.array(to_float(vals[0])), ()
     if carrier == 'decstr':
         return dec_string(vals[0]), ()
+    if carrier == 'fxp' or dt == 'fxp':
+        # another Fxp object holding the values exactly (integer-born when all values are integers)
+        sg, w, fs = fxp_source_format(vals)
+        pv = [_py(v) for v in vals]
+        if carrier == 'fxp':
+            src, shape = Fxp(pv[0], sg, w, fs), ()
+        elif kind == 'arr':
+            src, shape = Fxp(pv, sg, w, fs), (n,)
+        else:
+            assert n % 2 == 0
+            src, shape = Fxp(np.array(pv).reshape(2, n // 2), sg, w, fs), (2, n // 2)
+        assert [exact(c) for c in flat(src.get_val())] == list(vals) and not src.status['inaccuracy'], 'fxp carrier not exact'
+        return src, shape
     if kind == 'np':
         t = np.dtype(dt).type
         return (t(int(vals[0])) if dt in INT_DTYPES else t(to_float(vals[0]))), ()
